@@ -100,13 +100,14 @@ macro "fp_same " t:term : tactic => `(tactic| refine Fp.trans ?_ (Same.fp _ $t))
 @[reducible] def mPoolsHeld : Mask := { pools := true, held := true }
 @[reducible] def mEnd : Mask := { res := true, pools := true, held := true, blocked := true }
 @[reducible] def mBlocked : Mask := { blocked := true }
+@[reducible] def mEndNB : Mask := { res := true, pools := true, held := true }
 @[reducible] def mHeldB : Mask := { held := true, blocked := true }
 @[reducible] def mResHeldB : Mask := { res := true, held := true, blocked := true }
 @[reducible] def mPoolsHeldB : Mask := { pools := true, held := true, blocked := true }
 @[reducible] def mBufsB : Mask := { bufs := true, blocked := true }
 @[reducible] def mOqsB : Mask := { oqs := true, blocked := true }
 @[reducible] def mPqsB : Mask := { pqs := true, blocked := true }
-attribute [simp] mRes mPools mBufs mOqs mPqs mHeld mResHeld mPoolsHeld mEnd mBlocked mHeldB mResHeldB mPoolsHeldB mBufsB mOqsB mPqsB
+attribute [simp] mRes mPools mBufs mOqs mPqs mHeld mResHeld mPoolsHeld mEnd mBlocked mHeldB mResHeldB mPoolsHeldB mBufsB mOqsB mPqsB mEndNB
 
 /-! ### primitives -/
 
@@ -227,10 +228,11 @@ theorem modProc_fp_blocked (w : World) (p : Pid) (f : Proc → Proc) (hf : ∀ x
 @[simp] theorem poolDropHolder_fp (w : World) (pl : Nat) (p : Pid) : Fp mPools w (poolDropHolder w pl p) := by
   unfold poolDropHolder; fp_auto
 
-@[simp] theorem dropResources_fp (w : World) (p : Pid) : Fp mEnd w (dropResources w p) := by
+@[simp] theorem dropResources_fp (w : World) (p : Pid) : Fp mEndNB w (dropResources w p) := by
   unfold dropResources
   dsimp only
-  refine Fp.trans (Fp.mono (by decide) (modProc_fp w p _)) (foldl_fp _ _ ?_ _ _)
+  refine Fp.trans (Fp.mono (by decide) (modProc_fp_held w p _ ?_)) (foldl_fp _ _ ?_ _ _)
+  · intro _; rfl
   intro w h
   cases h with
   | res r => fp_auto
